@@ -1,6 +1,7 @@
 import OpusProofs.KernelsDispatch
 import OpusProofs.KernelsVQ
 import OpusProofs.KernelsXcorr
+import OpusProofs.KernelsNsq
 /-
   Property C15 — "Optimised (SIMD, run-time dispatched) kernels match the portable C code".
 
@@ -108,6 +109,19 @@ theorem vqWMatEC_sse_eq_c (inp : VQIn) : vqWMatEC_sse inp = vqWMatEC_c inp := vq
 example : vqWMatEC_sse ⟨[131072, 1000, 2000, 3000, 4000, 0, 131072, 0, 0, 0, 0, 0, 131072, 0, 0, 0, 0, 0, 131072, 0, 0, 0, 0, 0, 131072],
       [0, 0, 70000, 0, 0], [0, 0, 10, 0, 0, 0, 0, 64, 0, 0], [10, 64], [20, 30], 80, 100, 2⟩
     = ⟨-4920, 23493, 1, some 64⟩ := by decide +kernel
+
+/-- PARTIAL (one primitive only; the full statement `silk_NSQ_sse4_1 = silk_NSQ_c`, `silk_NSQ_del_dec_sse4_1/_avx2 =
+    silk_NSQ_del_dec_c` on every reachable state is NOT proved, see UNPROVED in tools/props/C15.py): the SIMD idiom with
+    which the SSE4.1 quantisers rescale the input and the long-term shaping state — four exact 64-bit products, even
+    ones shifted right, odd ones shifted left, blended — yields `silk_SMULWW(v, g)` in every lane, for all 32-bit
+    operands, including the 32-bit wrap of the C macro.  This definition is transcribed by hand and has no
+    correspondence run of its own (the idiom is inline in the kernels); the kernels as a whole are compared with the C
+    code by the whole-codec search. -/
+theorem nsq_scale_lanes_eq_smulww_partial (v g : Int) (odd : Bool) :
+    wrap32 (smulwwLaneSse v g odd) = smulww v g := smulwwLaneSse_eq v g odd
+
+example : smulww (-70000) 123456789 = -131866078 ∧ wrap32 (smulwwLaneSse (-70000) 123456789 true) = -131866078 ∧
+    wrap32 (smulwwLaneSse (-70000) 123456789 false) = -131866078 ∧ smulww 2147483647 2147483647 = -65536 := by decide
 
 /-! ### (iii) float reduction kernels: lane decomposition = sequential sum, every length -/
 
